@@ -302,6 +302,12 @@ func (its *PushPullHandler) pushOperations() errors.OrdaError {
 }
 
 func (its *PushPullHandler) processSubscribeOrCreate(code pushPullCase) errors.OrdaError {
+	if code == caseMatchKeyNotType { // the key is used by a datatype of another type
+		if its.gotOption.HasCreateBit() {
+			return errors.PushPullDuplicateKey.New(its.ctx.L(), its.Key)
+		}
+		return errors.PushPullNoDatatypeToSubscribe.New(its.ctx.L(), its.Key)
+	}
 	if its.gotOption.HasSubscribeBit() && its.gotOption.HasCreateBit() {
 		switch code {
 		case caseMatchNothing:
